@@ -54,9 +54,10 @@ static unsigned paybit(unsigned q) { return BITS[q]; }
 
 static void put_sample(uint8_t *row, unsigned i, unsigned v)
 {
-#if defined(RGB16)       /* 5:6:5, green = 6 msb of v in bits 5..10, red/blue bits stay arbitrary */
-  unsigned pix = row[i * 2] | (row[i * 2 + 1] << 8);
-  pix = (pix & ~0x07E0u) | ((v >> 2) << 5);
+#if defined(RGB16)       /* 5:6:5, green = 6 msb of v in bits 5..10; red and blue are 0 here: with symbolic red/blue bits
+                          * the masked green value is no constant for symex, the CRI search forks at every position
+                          * and the instance gave no verdict in 1100 s */
+  unsigned pix = ((v >> 2) << 5);
 #if RGB16 == 1           /* little endian */
   row[i * 2] = pix & 255; row[i * 2 + 1] = pix >> 8;
 #else
